@@ -1568,6 +1568,7 @@ func runCyclic(r *vf.Run, scratch string) {
 		}
 	}
 	var overflowedA []int
+	t0 := time.Now()
 	vf.Parallel(len(probeItems), 6, func(i int) {
 		it := probeItems[i]
 		res, deaths, _ := runRange(scratch, it, it+1, emptySkip, reducedStack, stall, 1)
@@ -1586,6 +1587,8 @@ func runCyclic(r *vf.Run, scratch string) {
 		mu.Unlock()
 	})
 	sort.Ints(overflowedA)
+	stageT := map[string]float64{"A_probes_reduced_stack_s": time.Since(t0).Seconds()}
+	t0 = time.Now()
 	r.Add("cyclic_probe_items", int64(len(probeItems)))
 	r.Add("cyclic_probe_overflowed_reduced_stack", int64(len(overflowedA)))
 
@@ -1640,6 +1643,8 @@ func runCyclic(r *vf.Run, scratch string) {
 	}
 	runFull(again)
 
+	stageT["B_confirm_default_stack_s"] = time.Since(t0).Seconds()
+	t0 = time.Now()
 	skipKeys := map[string]bool{}
 	for _, d := range allDeaths {
 		if d.item >= 0 {
@@ -1682,6 +1687,8 @@ func runCyclic(r *vf.Run, scratch string) {
 		notRunTotal += notRun
 		mu.Unlock()
 	})
+	stageT["C_bulk_s"] = time.Since(t0).Seconds()
+	r.Extra("cyclic_stage_wall", stageT)
 	if notRunTotal > 0 {
 		r.Add("cyclic_items_not_run_after_repeated_deaths", int64(notRunTotal))
 	}
